@@ -2541,6 +2541,10 @@ class QueryTaxResult:
             ):  # not sure we want/need the `nomatch` part...
                 break
 
+        if classif is None:
+            raise ValueError(
+                "Error: at no available rank is the best-supported lineage one of the provided lingroups; cannot classify."
+            )
         # store the final classification result
         self.classification_result = classif
         # could do this later, in __main__.py, for example
